@@ -12,7 +12,7 @@ import (
 // compiling when a field changes its integer type; ok=false (the layout is not the expected one:
 // fields h [8]uint32, x [64]byte, nx <integer>, len <integer>) makes the state-injection cases
 // not applicable, never a verdict.
-func injectSM3(h [8]uint32, buffered []byte, total uint64) (obj *SM3, ok bool) {
+func zvInjectSM3(h [8]uint32, buffered []byte, total uint64) (obj *SM3, ok bool) {
 	defer func() {
 		if recover() != nil {
 			obj, ok = nil, false
